@@ -75,8 +75,8 @@ CHECKS["C18"] = (MC,
     "TLA+ model (ServerOps.tla) model-checked by TLC + trace validation of real-code histories (post-state matching + property monitor) by TLC")
 
 EXP = "exploration"
-_chan_note = "trusted: TLC (judging), the simulated kernel and scheduler shims (Lock/Condition/select/poll/pipe semantics), the independent response lexer wv/httpclient.py; schedule coverage on the code is bounded (all schedules with <= 1 pre-emption up to a limit, sampled beyond)"
-_chan_tech = "deterministic schedule exploration of the real server (bounded DFS + PCT/pre-emption sampling) with TLC trace validation against the TLA+ property monitor Pipeline.tla"
+_chan_note = "trusted: TLC (judging), the simulated kernel and scheduler shims (Lock/Condition/select/poll/pipe semantics), the independent response lexer wv/httpclient.py; schedule coverage on the code is bounded (single pre-emptions depth-first from the start and spread over the whole default execution up to a limit, PCT / random pre-emption sampling beyond, extra single pre-emptions around any point where an execution leaves the model); what the model needs to know about a response (write sizes, closing or not) comes from a recording run of the scenario"
+_chan_tech = "deterministic schedule exploration of the real server (bounded DFS + spread single pre-emptions + PCT/pre-emption sampling + drift-guided search) with TLC trace validation against the TLA+ property monitor Pipeline.tla"
 for _pid, _what, _ref in (
         ("C04", "pipelining scenarios (1..3 requests, bodies, Expect, Connection: close, lookahead 0..2, 1..2 workers, partial-send patterns); clauses P04_*: executed in arrival order exactly once, one at a time, wire = concatenation of the responses in order, nothing duplicated/stray/cut", "DESIGN.md 6 (C04)"),
         ("C05", "the poll timeout taken as infinite (the select/poll shim blocks until a descriptor is ready), select and poll, response sizes around send_bytes/watermark/SO_SNDBUF, slow readers; clauses P05_*: at quiescence nothing is undelivered, unserviced, half-closed or waiting", "DESIGN.md 6 (C05)"),
